@@ -19,6 +19,7 @@ def body(ctx):
     first_error(ctx, prog, viol)
     release_all(ctx, prog, viol)
     handles_fail_fast(ctx, prog, viol)
+    failure_detection(ctx, prog)
     if viol:
         ctx.report('connection-death', f"{len(viol)} obligations violated, e.g. {str(viol[0])[:250]}; confirmed by scripted-broker scenarios over loopback TCP", {'solver_counterexamples': [str(v)[:300] for v in viol[:6]]},
                    E2E, profiles=('dev',), hang_is_violation=True)
@@ -27,6 +28,25 @@ def body(ctx):
         ctx.extra['native_broker_scenarios'] = {k: v.get('tail', '')[-300:] for k, v in rp['profiles'].items()}
         if rp['reproduced'] or any(v.get('timeout') for v in rp['profiles'].values()):
             ctx.inconclusive.append('native broker scenarios disagree with a passing solver verdict: ' + str(rp)[:400])
+
+
+def failure_detection(ctx, prog):
+    """the three ways the I/O thread learns that the connection is dead, each of which must end in an error (the obligations are
+    those of C06 / C08 / C17, decided here again because a connection whose death goes unnoticed leaves every caller blocked)"""
+    import c06, c08, c17
+    ctx.bound('failure_detection', 'read loop: 1 iteration from the loop head with any number of bytes already read (EOF => UnexpectedSocketClose, I/O error => IoErrorReadingSocket); readable event ending in EOF while Steady; heartbeat timer expiry for every interval / elapsed time')
+    ctx.assume("clock readings stay below 2^80 ns; the timer wheel delivers an expiry no earlier than the armed duration")
+    v6 = []
+    c06.iterations(ctx, prog, 1, v6, from_head=True)
+    if v6:
+        ctx.report('read-failure-undetected', f"read loop: {str(v6[0])[:300]}; natively confirmed by the segmentation / terminal-event differential", {'solver_counterexamples': [str(v)[:400] for v in v6[:4]]},
+                   c06.NATIVE_DIFF, inject_into='src/frame_buffer.rs', profiles=('dev',), hang_is_violation=True, panic_is_violation=True)
+    c08.eof_before_closeok(ctx, prog)
+    v17 = []
+    c17.process_timers(ctx, prog, v17)
+    if v17:
+        test, exp_desc = c17.hb_replay('timers')
+        ctx.report('heartbeat-timers', f"heartbeat expiry: solver counterexample {str(v17[0])[:300]}; native timing scenario: {exp_desc}", {'cex': str(v17[0])[:600]}, test, inject_into='src/io_loop/mod.rs', profiles=('dev',))
 
 
 def first_error(ctx, prog, viol):
